@@ -660,3 +660,9 @@ theorem mergeAll_perm {l l' : List SchemaDoc} (hp : l'.Perm l) : SourcesPerm (me
   · rw [g2, h2]; exact (hp.flatMap_right _).append_left _
 
 end Gql.Load
+
+#print axioms Gql.Load.mergedType_perm
+#print axioms Gql.Load.tsEquiv_of_perm
+#print axioms Gql.Load.WellFormed_perm
+#print axioms Gql.Load.load_isOk_sourcesPerm
+#print axioms Gql.Load.mergeAll_perm
